@@ -306,7 +306,7 @@ class Mesh:
         boundaries = {} if self._boundaries is None else self._boundaries
 
         def indicator(ix):
-            ind = np.zeros(self.nvertices)
+            ind = np.zeros(self.p.shape[1])  # one value per exported point
             ind[ix] = 1
             return ind
 
